@@ -18,6 +18,8 @@ import (
 	"hash/crc32"
 	"io"
 	"os"
+	"runtime"
+	"sync"
 	"testing"
 	"time"
 )
@@ -185,71 +187,84 @@ func TestBoundedC12(t *testing.T) {
 			}},
 	}
 	cases, failures := 0, 0
-	knownSplit, splitOK := map[string]int{}, map[string]int{}
+	var mu sync.Mutex
 	report := func(format string, a ...any) {
+		mu.Lock()
+		defer mu.Unlock()
 		failures++
 		if failures <= 5 {
 			fmt.Printf("GOVC-BOUNDED: FAIL "+format+"\n", a...)
 		}
 	}
+	var wg sync.WaitGroup
+	sem := make(chan struct{}, runtime.NumCPU())
 	for _, m := range modes {
 		for n := 0; n <= maxLen; n++ {
 			payload := []byte("abcdefghij")[:n]
 			for _, comp := range compositions(n) {
-				var chunks [][]byte
-				off := 0
-				for _, k := range comp {
-					chunks = append(chunks, payload[off:off+k])
-					off += k
-				}
-				stream := m.enc(chunks, payload)
-				mask := payloadMask(stream, chunks)
-				var frags [][]int
-				for f := 1; f <= len(stream); f++ {
-					frags = append(frags, []int{f})
-				}
-				for a := 1; a < len(stream); a++ {
-					frags = append(frags, []int{a, len(stream)})
-				}
-				for _, fr := range frags {
-					for _, bs := range bufs {
-						cases++
-						fr0 := &fragReader{data: stream, sizes: fr}
-						r, err := m.dec(fr0)
-						if err != nil {
-							report("%s: constructor: %v", m.name, err)
-							continue
-						}
-						got, err := readAllBuf(r, bs)
-						if err != nil || !bytes.Equal(got, payload) {
-							if m.name != "unsigned-crc32" && splitsMetadata(mask, fr0.cuts) {
-								knownSplit[m.name]++ // known finding: the signed decoder mishandles framing split across reads
+				m, comp := m, comp
+				wg.Add(1)
+				sem <- struct{}{}
+				go func() {
+					defer func() { <-sem; wg.Done() }()
+					local := 0
+					defer func() { mu.Lock(); cases += local; mu.Unlock() }()
+					var chunks [][]byte
+					off := 0
+					for _, k := range comp {
+						chunks = append(chunks, payload[off:off+k])
+						off += k
+					}
+					stream := m.enc(chunks, payload)
+					var frags [][]int
+					for f := 1; f <= len(stream); f++ {
+						frags = append(frags, []int{f})
+					}
+					for a := 1; a < len(stream); a++ {
+						frags = append(frags, []int{a, len(stream)})
+					}
+					for _, fr := range frags {
+						for _, bs := range bufs {
+							local++
+							r, err := m.dec(&fragReader{data: stream, sizes: fr})
+							if err != nil {
+								report("%s: constructor: %v", m.name, err)
 								continue
 							}
-							report("%s payload=%q chunks=%v fragments=%v buffer=%d: got %q err=%v", m.name, payload, comp, fr, bs, got, err)
-						} else if m.name != "unsigned-crc32" && splitsMetadata(mask, fr0.cuts) {
-							splitOK[m.name]++
+							got, err := readAllBuf(r, bs)
+							if err != nil || !bytes.Equal(got, payload) {
+								report("%s payload=%q chunks=%v fragments=%v buffer=%d: got %q err=%v", m.name, payload, comp, fr, bs, got, err)
+							}
 						}
 					}
-				}
-				// every proper prefix of a valid stream must be rejected
-				for cut := 0; cut < len(stream); cut++ {
-					cases++
-					r, err := m.dec(&fragReader{data: append([]byte{}, stream[:cut]...), sizes: []int{4096}})
-					if err != nil {
-						continue
+					// every proper prefix of a valid stream must be rejected
+					for cut := 0; cut < len(stream); cut++ {
+						local++
+						r, err := m.dec(&fragReader{data: append([]byte{}, stream[:cut]...), sizes: []int{4096}})
+						if err != nil {
+							continue
+						}
+						if got, err := readAllBuf(r, 4096); err == nil {
+							report("%s payload=%q chunks=%v cut at %d of %d: accepted, %d bytes decoded", m.name, payload, comp, cut, len(stream), len(got))
+						}
 					}
-					if got, err := readAllBuf(r, 4096); err == nil {
-						report("%s payload=%q chunks=%v cut at %d of %d: accepted, %d bytes decoded", m.name, payload, comp, cut, len(stream), len(got))
+					// nothing may follow a complete stream, whether it arrives with the last piece or in a read of its own
+					for _, extra := range []string{"x", "\r\n", "0\r\n\r\n"} {
+						for _, fr := range [][]int{{4096}, {len(stream), 4096}} {
+							local++
+							r, err := m.dec(&fragReader{data: append(append([]byte{}, stream...), extra...), sizes: fr})
+							if err != nil {
+								continue
+							}
+							if got, err := readAllBuf(r, 4096); err == nil {
+								report("%s payload=%q chunks=%v followed by %q (reads %v): accepted, %d bytes decoded", m.name, payload, comp, extra, fr, len(got))
+							}
+						}
 					}
-				}
+				}()
 			}
 		}
 	}
-	for _, m := range modes {
-		if knownSplit[m.name] > 0 {
-			fmt.Printf("GOVC-BOUNDED: KNOWN %s framing-split-across-reads failing=%d passing=%d\n", m.name, knownSplit[m.name], splitOK[m.name])
-		}
-	}
+	wg.Wait()
 	fmt.Printf("GOVC-BOUNDED: cases=%d failures=%d maxlen=%d\n", cases, failures, maxLen)
 }
